@@ -1258,7 +1258,7 @@ func ruleOpenFlag(r *Report, pkgs ...string) {
 	}
 	for _, fn := range p.ModuleFuncs() {
 		pk := fnPkg(fn)
-		if pk == nil || fn.Blocks == nil || fn.Name() != "Open" || fn.Signature.Recv() == nil || fn.Parent() != nil || !want[shortPkg(pk.Path())] {
+		if pk == nil || fn.Blocks == nil || fnName(fn) != "Open" || fn.Signature.Recv() == nil || fn.Parent() != nil || !want[shortPkg(pk.Path())] {
 			continue
 		}
 		idx := errorResultIndex(fn)
@@ -1863,7 +1863,7 @@ func ruleSyncFailureRollsBack(r *Report) {
 			continue
 		}
 		for _, t := range CallsIn(f, Keys("os.File.Truncate")) {
-			if f != fn && !strings.Contains(strings.ToLower(f.Name()), "trunc") && f.Name() != "WriteSync" {
+			if f != fn && !strings.Contains(strings.ToLower(fnName(f)), "trunc") && fnName(f) != "WriteSync" {
 				continue // Close truncates too, with nothing to continue
 			}
 			if f == fn || reachesFromSyncFailure(fn, f) {
